@@ -30,8 +30,8 @@ def run(ctx):
         "zero-sized element types (capacity usize::MAX, lengths) by oracle only",
     ]
     proved = prove(ctx, MODULES)
-    run_coll(ctx, 2000 if q else 300000, 14, "std", oracle_props=["C08"])
-    run_coll(ctx, 150 if q else 40000, 12, "general", oracle_props=["C08"], label="general(with faults)")
+    run_coll(ctx, 8000 if q else 300000, 14, "std", oracle_props=["C08"])
+    run_coll(ctx, 600 if q else 40000, 12, "general", oracle_props=["C08"], label="general(with faults)")
     # split_off (range form, in place) is one of the operations C08 is about: its contents / order / capacity
     # oracles live in the `split` profile of the harness (tagged C16 there)
     run_coll(ctx, 0, 10, "split", oracle_props=["C08", "C16"], label="split")
